@@ -459,6 +459,14 @@ class Run:
                 n, acc, _rej = gd.edges(body)
                 nsites += n
                 cut |= acc
+                if not acc:
+                    # the check may have been extracted into a same-crate helper: accept the helper's own accepting result
+                    # where every accepting return of the helper is cut by the guard inside it (one-level wrapper summary)
+                    wn, wacc, via = _wrapper_edges(self.F, body, gd)
+                    nsites += wn
+                    cut |= wacc
+                    if via:
+                        details.append({"guard": gd.label, "via_wrapper": via})
             label = " or ".join(gd.label for gd in group)
             if not cut:
                 ok = False
@@ -1120,3 +1128,65 @@ class ForallGuard:
                     rej |= tr.reject
                     self.forms.append("any" if is_any else "all")
         return n, acc, rej
+
+
+_WRAP_CACHE = {}
+
+
+def _wrapper_edges(F, body, gd):
+    """(sites, accepting edges, helper names): calls in `body` to same-crate helpers that enforce `gd` on all their accepting returns."""
+    if not isinstance(gd, CallGuard) or gd.arg_pred is not None:
+        return 0, set(), []
+    prep(body)
+    acc, n, via = set(), 0, []
+    seen = set()
+    for blk in body.blocks:
+        t = blk["term"]
+        if t["k"] != "call" or blk["cleanup"]:
+            continue
+        nc = t["ncallee"] or ""
+        if nc in seen or not nc or callee_matches(t, gd.pats):
+            continue
+        seen.add(nc)
+        cands = [h for h in F.by_npath.get(nc, []) if h.crate == body.crate and h.kind != "closure"]
+        if not cands:
+            continue
+        hb = cands[0]
+        inner = hb
+        if hb.coroutine or any(c.kind == "closure" and c.parent == hb.path and c.coroutine for c in F.children.get(hb.path, [])):
+            kids = [c for c in F.children.get(hb.path, []) if c.kind == "closure"]
+            if len(kids) == 1:
+                inner = kids[0]
+        key = (inner.path, gd.pats, gd.steps, id(F))
+        if key not in _WRAP_CACHE:
+            res = None
+            try:
+                prep(inner)
+                n2, acc2, _ = gd.edges(inner)
+                if acc2:
+                    g = cfg_of(inner)
+                    free = g.reach((0,), cut=acc2)
+                    for kind in ("Ok", "true", "Some"):
+                        sinks = set(RetSink(kind).blocks(inner))
+                        fwd = {b["id"] for b in inner.blocks if b["term"]["k"] == "call" and b["term"]["d"] == [0] and not b["cleanup"]
+                               and not callee_matches(b["term"], gd.pats)}
+                        if sinks and not ((sinks | fwd) & free):
+                            res = (kind,)
+                            break
+                    if res is None and not any(RetSink(k).blocks(inner) for k in ("Ok", "Some")):
+                        # bool helper returning the verdict itself
+                        dummy = Run.__new__(Run)
+                        dummy.F, dummy.violations, dummy.instances, dummy.prop = F, [], [], "wrap"
+                        if _bool_verdict(dummy, "wrap", inner, gd, "wrap", emit=False):
+                            res = ("true",)
+            except Exception:
+                res = None
+            _WRAP_CACHE[key] = res
+        steps = _WRAP_CACHE[key]
+        if steps:
+            wn, wacc, _ = CallGuard([nc], steps, gd.label).edges(body)
+            if wacc:
+                n += wn
+                acc |= wacc
+                via.append(nc.split("::")[-1])
+    return n, acc, via
